@@ -913,6 +913,9 @@ pub enum Emission {
     /// pest-typed's structural rule: every non-silent rule outside lookahead, nothing below
     /// @ and $ rules (used to classify finding K3)
     Typed,
+    /// tokens of a typed node looked at on its own (a getter result): as `Typed`, but the
+    /// node may itself sit inside a predicate
+    TypedStruct,
 }
 
 /// Token forest of a derivation node (a silent entry rule yields a forest).
@@ -923,6 +926,7 @@ pub fn tokens(g: &Grammar, n: &Node, mode: Emission, out: &mut Vec<Tok>) {
             let emit = match mode {
                 Emission::Pest | Emission::Spec => *emit_pest,
                 Emission::Typed => *kind != Kind::Silent && !*look,
+                Emission::TypedStruct => *kind != Kind::Silent,
             };
             if emit {
                 let mut kids = vec![];
@@ -943,6 +947,7 @@ pub fn tokens(g: &Grammar, n: &Node, mode: Emission, out: &mut Vec<Tok>) {
             let emit = match mode {
                 Emission::Pest | Emission::Spec => *emit_pest,
                 Emission::Typed => !*look,
+                Emission::TypedStruct => true,
             };
             if emit {
                 out.push(Tok { rule: "EOI".into(), start: n.start, end: n.end, kids: vec![] });
